@@ -1,4 +1,5 @@
 import RxnModel.Proofs.JobFsm
+import RxnModel.Model.RunnerProc
 /-!
 # C15 — the job runs only on a full, live assembly and checkpointing resumes
 
@@ -85,6 +86,17 @@ theorem members_restore_same_checkpoint {s : St} (_hr : Reachable s) (a : Act) (
   have h3 : t.startCk = dep.ck := h2.trans h1
   simp only [step, hst, ne_eq, not_true_eq_false, if_false, h3]
   exact ⟨_, _, _, _, _, rfl⟩
+
+/-- A completed snapshot whose file has been written is always published: the guard of the model's `publish` action
+(`canPublish`: the id has been reached by the counter and lies below a pending snapshot's id) holds for every snapshot
+being written in every reachable state, so it never changes what the action does. -/
+theorem publish_always_enabled {s : St} (hr : Reachable s) (n : Nat) (hn : n ∈ s.store.writing) :
+    (∃ l, (step s (.publish n)).2 = .published n (pubCurrent s.store.current n) l) ∧
+    ∃ c, (step s (.publish n)).1.store.current = some c ∧ n ≤ c := by
+  have hc := canPublish_of_writeOk (reachable_writeOk hr) n hn
+  simp only [step, hc, if_true]
+  obtain ⟨c, h1, h2, _⟩ := pubCurrent_ge s.store.current n
+  exact ⟨⟨_, rfl⟩, c, h1, h2⟩
 
 /-- the current checkpoint id never decreases (only the publication of a written snapshot changes it, and a newer one stays) -/
 theorem current_monotone {s : St} (hr : Reachable s) (a : Act) (c : Nat) (hc : s.store.current = some c) :
@@ -249,6 +261,39 @@ theorem tick_interleaving_counterexample :
     (run (run (init 2 5 0) tickRaceTrace).1
       [.ackS 2 1, .ackS 3 1, .bar 0 2 1, .bar 0 3 1, .bar 4 2 1, .bar 4 3 1, .tick]).1.store.current = none :=
   ⟨⟨2, 5, 0, 3, tickRaceTrace, rfl⟩, by decide, by decide, by decide, by decide, by decide⟩
+
+/-- D57 family: `HandleCreateSavepoint` has the same shape as the ticker callback and runs on an RPC goroutine. Its
+status check passes, operator 1 is lost and replaced, then it creates a savepoint snapshot for the previous assembly:
+the job runs on {0,4} with a pending snapshot waiting for operator 1 (ticks answer retry), exactly as in
+`tick_interleaving_counterexample`. As one step (`.savepoint`, serial schedules) it preserves every invariant
+(`reachable_inv` covers it). -/
+theorem savepoint_interleaving_counterexample :
+    ReachableAny (run (init 2 5 0) [.regO 0, .regO 1, .regS 2, .regS 3, .deployOk, .spA, .deregO 1, .regO 4, .tickB, .tickC, .deployOk]).1 ∧
+    (run (init 2 5 0) [.regO 0, .regO 1, .regS 2, .regS 3, .deployOk, .spA, .deregO 1, .regO 4, .tickB, .tickC, .deployOk]).1.status = .running ∧
+    (run (init 2 5 0) [.regO 0, .regO 1, .regS 2, .regS 3, .deployOk, .spA, .deregO 1, .regO 4, .tickB, .tickC, .deployOk]).1.asmOps = [0, 4] ∧
+    (run (init 2 5 0) [.regO 0, .regO 1, .regS 2, .regS 3, .deployOk, .spA, .deregO 1, .regO 4, .tickB, .tickC, .deployOk]).1.store.pending =
+      some { id := 1, expOps := [0, 1], expSrs := [2, 3], waitOps := [0, 1], waitSrs := [2, 3], sp := true } ∧
+    (step (run (init 2 5 0) [.regO 0, .regO 1, .regS 2, .regS 3, .deployOk, .spA, .deregO 1, .regO 4, .tickB, .tickC, .deployOk]).1 .tick).2 = .retry :=
+  ⟨⟨2, 5, 0, 3, _, rfl⟩, by decide, by decide, by decide, by decide⟩
+
+/-! ## the source runner side (finding D48) -/
+
+/-- D48: the runner's only free loop is inside a slow source read when checkpoint 1 is requested, so the request stays
+queued; the job abandons checkpoint 1 and redeploys the runner (its next checkpoint is 2). The loop of the NEW
+deployment takes the stale request, the job refuses the acknowledgement, that loop ends, and the runner — deployed,
+registered, heartbeating — has no loop left: the request for checkpoint 2 stays queued for ever. -/
+theorem runner_dies_on_stale_request_counterexample :
+    (RunnerProc.run {} [.deploy, .hold, .pend 1, .start 1, .pend 2, .deploy, .start 2]).2 =
+      [.deployed none, .held, .ok, .queued, .ok, .deployed (some (1, false)), .queued] ∧
+    (RunnerProc.run {} [.deploy, .hold, .pend 1, .start 1, .pend 2, .deploy, .start 2]).1.free = 0 ∧
+    (RunnerProc.run {} [.deploy, .hold, .pend 1, .start 1, .pend 2, .deploy, .start 2]).1.diedStale = true := by
+  decide
+
+/-- What holds for the code as it is (excluded: a request queued when `HandleDeploy` arrives): a runner redeployed with
+an empty request queue has a free loop and acknowledges the request for the job's pending checkpoint. -/
+theorem runner_acks_after_redeploy_partial (s : RunnerProc.St) (hq : s.queue = none) (id : Nat) :
+    (RunnerProc.step (RunnerProc.step (RunnerProc.step s .deploy).1 (.pend id)).1 (.start id)).2 = .acked id := by
+  simp [RunnerProc.step, RunnerProc.take, hq]
 
 /-! ## non-vacuity -/
 
